@@ -89,9 +89,26 @@ def run(ctx):
                         viol("sigma-linearity/wdm-frameworks", f"{cls_.__name__}: sigma(m, z={z_}) differs from growth_factor * sigma(m, 0) by up to {float(np.max(np.abs(oz.sigma / (Dz * o0.sigma) - 1))):.3g}", {"class": cls_.__name__, "z": z_})
         except ImportError:
             pass
+        # at z = 0 the returned spectrum is the normalised one (growth factor exactly 1) for every growth model, also for the second and third
+        # object of a session whose cosmologies share Om0 but not their curvature
+        from astropy.cosmology import LambdaCDM as _LCDM
+        for gm_ in ("Carroll1992", "GrowthFactor", "GenMFGrowth"):
+            for ode_ in (0.7, 0.4, 0.0):
+                if gm_ == "GenMFGrowth" and ode_ not in (0.7, 0.0):
+                    continue
+                try:
+                    Tg = Transfer(transfer_model="EH", lnk_min=np.log(1e-7), lnk_max=np.log(1e4), dlnk=0.05, z=0.0, sigma_8=0.8, growth_model=gm_, cosmo_model=_LCDM(H0=70.0, Om0=0.3, Ode0=ode_, Ob0=0.05, Tcmb0=0.0, name="curv"))
+                    pz0 = Tg.power
+                except ValueError:
+                    continue
+                ncase += 1
+                s8g = tophat_sigma(Tg.k, pz0)
+                if abs(float(np.atleast_1d(Tg.growth_factor)[0]) - 1) > 1e-12 or abs(s8g / 0.8 - 1) > 1e-3:
+                    viol("sigma8-normalisation/z=0-power", f"Transfer(growth_model={gm_}, Om0=0.3, Ode0={ode_}, z=0): growth_factor = {float(np.atleast_1d(Tg.growth_factor)[0])!r}, and the returned z=0 power integrates (top-hat R=8) to {s8g:.5f}, requested 0.8",
+                         {"growth_model": gm_, "Ode0": ode_})
         # value at a wavenumber vs requested range / resolution
         nrange = 0
-        for model in ("EH", "BBKS"):
+        for model in ("EH", "BBKS", "EH_NoBAO", "BondEfs"):
             ref = Transfer(transfer_model=model, lnk_min=-18.0, lnk_max=12.0, dlnk=0.02)
             from scipy.interpolate import InterpolatedUnivariateSpline as Spl
             lref = Spl(np.log(ref.k), np.log(ref.power), k=3)
